@@ -56,6 +56,12 @@ CHECKS = {
  "C18": dict(cat="exploration", ref="DESIGN.md §6 C18",
    technique="deterministic simulation with fault injection: long simulated sessions (all-local, never-drained events, silent spectators, lost checksum reports, repeated ack outages) with every internal buffer size read through a read-only accessor after each API call and compared with configuration-only bounds",
    text="Sessions of up to 20000 frames under the conditions that make buffers grow - no remotes at all, events never drained, a spectator that stops polling, checksum reports lost, acknowledgements cut one way for up to 0.9 x timeout - with the sizes of the event queue, pending and outgoing local inputs, unacknowledged inputs, remembered received inputs, pending checksums and checksum history read after every API call and checked against bounds that depend only on the configuration; a silent spectator must have been disconnected by the 128-input cap while the host keeps running."),
+ "C15": dict(cat="exploration", ref="DESIGN.md §6 C15",
+   technique="deterministic simulation (fault-free, the varied dimensions are clock, latency and schedule): two peers under the documented main loop with an exactly known lead and latency on a virtual clock, per-machine wall-clock skew; oracle = derived +-1 bounds on frames_ahead/ping/frames-behind and the WaitRecommendation rules",
+   text="A 495-cell grid (lead -7..=7 x symmetric latency 0-100 ms x 30/60/120 fps), each cell with seeded tick phases, poll periods of 1-2 ms, input delay and up to two days of wall-clock skew between the two machines. Because the simulator owns both clocks the true lead and the true round trip are known exactly, so on every measured tick frames_ahead() must be within one frame of the real lead (and the two sides' values must sum to within one of zero), ping within one tick of the round trip, remote_frames_behind equal to the last quality report; WaitRecommendations only with frames_ahead() >= 3, carrying it, >= 60 frames apart; no numbers from network_stats() in the first second."),
+ "C16": dict(cat="exploration", ref="DESIGN.md §6 C16",
+   technique="deterministic simulation: seeded SessionBuilder call sequences checked against an executable reference validity predicate, every accepted configuration then run in the simulator against matching peers; seeded misuse calls inside lossy runs with a twin run without them",
+   text="Three quarters of the runs are seeded builder-call sequences over small value domains: each call must succeed or fail with InvalidRequest exactly as a 60-line predicate written from the rustdoc says, and every configuration the builder accepts is run - P2P against matching simulated peers/spectators with all oracles on, SyncTest for 60 frames, a spectator alone - and must not panic. One quarter are runs of C01's space with misuse calls at seeded ticks (input for a non-local handle, advance with a local input missing, disconnect of a local/unknown handle, delay change or stats for the wrong player type): the documented error must come back and the twin run without the calls must produce identical request lists and events. The builder predicate is a pure function; it is here as the configuration stage of simulated runs."),
 }
 NOT_YET = "not claimed at this commit: the check for this property is still under construction (see DESIGN.md §6 for the planned check)"
 NA = {
